@@ -424,6 +424,15 @@ theorem C01_bytes_parsed (lim : Nat) (ci : ComposeInfo) (t : Str) (hk : WellKeye
       rw [hp]
       simp only [loadsDoc, deserialize_canon hrep _ hread, hv, dumps, C01_fixpoint ci j hk hj]
 
+/-- the former hypothesis `hord`, now a theorem: reloading the key-sorted document and reloading the document as written
+give the same text -/
+theorem C01_reload_order_independent (ci : ComposeInfo) (j : PyVal) (hk : WellKeyed ci) (h : serialize ci = .ok j) (text : Str) :
+    reloadDump (fun _ => .ok (PyVal.canon j)) text = reloadDump (fun _ => .ok j) text := by
+  have hrep := (serialize_rep 0 ci j h).1
+  have hread := C01_readback ci j hk h
+  unfold reloadDump
+  simp only [loadsDoc, deserialize_canon hrep _ hread, hread]
+
 theorem C01_bytes_parsed_unlimited (ci : ComposeInfo) (t : Str) (hk : WellKeyed ci) :
     dumps ci = .ok t → reloadDump (JsonParse.parseWith 0) t = .ok t :=
   C01_bytes_parsed 0 ci t hk (JsonParse.intFits_zero _)
